@@ -21,8 +21,22 @@ Hypotheses (all explicit; `SendPre`, `AckEnv`, `Hist`, `FailedSt` are in `NrfPro
 * `AckEnv`: only used for the *value* of the ACK payload: the EN_DPL shadow agrees with the register
   when the radio takes ACK payloads, and no radio attaches an empty ACK payload (true in every
   reachable world: `ackEnv_of_sane`, `World.Reachable.good`).
+
+Added in round 2:
+* `C02_history_calls` (`NrfProofs/C02Calls.lean`) — the induction over an arbitrary LIST of
+  `send`/`resend` calls, each with its own fault pattern, carried out (was: one-step preservation
+  `C02_history` + prose); `C02_history_calls_closed`: the same from a condition on the start state
+  only (`NrfProofs/C02CallsClosed.lean`).
+* `C02_send_list_call` — `C02_send_list` composed with the `ce = False` prefix of the real call.
+* `C02_negative_force_retry`, `C02_negative_retry_loop` (`NrfProofs/C02Neg.lean`) — negative
+  `force_retry`: never `False`; still looping when the fuel is used up, for every fuel; with nobody
+  acknowledging: non-termination.  "`send()` always terminates" (`C02_terminates`) is therefore a
+  theorem about `force_retry : Nat` ONLY.
 -/
 import NrfProofs.C02Hist
+import NrfProofs.C02Calls
+import NrfProofs.C02Neg
+import NrfProofs.C02CallsClosed
 
 namespace Nrf.Props.C02
 open Nrf Rf24 Spec.Link
@@ -246,6 +260,175 @@ theorem C02_history (R : Radio) (hp : R.Ptx) (s : DrvState) (h : Hist R s) :
 
 example : Hist { config := 0x0E } (exState []) := Or.inr ⟨by decide, rfl, by decide, rfl, Or.inl rfl⟩
 
+/-- **A failed payload does not leak, III — the induction over a list of calls, carried out.**
+    `calls` is ANY list of calls drawn from `send(buf, ask_no_ack, force_retry : Nat, send_only)` and
+    `resend(send_only)`, each carrying the fault pattern the environment chooses for it (`some F`:
+    the pattern is `F` when the call starts; `none`: what the predecessors left of theirs).
+    `runCalls` executes them one after the other on the model.  From every state satisfying the
+    history invariant `Hist R` (`R` a powered-up PTX), provided every call meets its per-call
+    hypotheses when its turn comes (`callsOk`: a `send` payload passes `write()`'s check; `AckEnv` for
+    the packet concerned — the same hypotheses as `C02_send_truth` / `C02_resend`):
+    * every call returns, and the i-th result is the ground truth of the i-th call in the state its
+      predecessors left and under its own fault pattern (`expectedCalls`: `sendExpected` of
+      `sendSucceedsB …` for a `send`; for a `resend` `False` on an empty TX FIFO, else one cycle's
+      `sendExpected (cycleOkSpec …)` for the pending entry);
+    * one result per call;
+    * the invariant holds after the whole list;
+    * in front of every `send` of the list its precondition `SendPre` holds (so `C02_send_truth`,
+      `C02_no_leak`, `C02_time` apply to each of them). -/
+theorem C02_history_calls (R : Radio) (hp : R.Ptx) (calls : List Call) (s : DrvState) (h : Hist R s)
+    (hok : callsOk calls s) :
+    (runCalls calls s).1 = (expectedCalls calls s).map .ok ∧
+    (runCalls calls s).1.length = calls.length ∧
+    Hist R (runCalls calls s).2 ∧
+    (∀ pre F buf m a n so post, calls = pre ++ Call.send F buf m a n so :: post →
+      SendPre ((runCalls pre s).2.withFaults F) buf so) := by
+  obtain ⟨h1, h2⟩ := calls_hist R hp calls s h hok
+  refine ⟨h1, runCalls_length calls s, h2, ?_⟩
+  intro pre F buf m a n so post hc
+  subst hc
+  exact calls_sendPre R hp pre F buf m a n so post s h hok
+
+/-- the calls of the example: a `send` all of whose 4 attempts (ARC = 3) fail, a `resend` that gets
+    through at its second attempt, a `resend` on the then empty TX FIFO -/
+def exCalls : List Call :=
+  [.send (some [.packetLost, .ackLost, .packetLost, .packetLost, .packetLost]) [1, 2, 3] false false 0 false,
+   .resend (some [.packetLost, .delivered]) false,
+   .resend none true]
+
+example : expectedCalls exCalls (exState []) = [.bool false, .bool true, .bool false] := by decide +kernel
+
+example : callsOk exCalls (exState []) := by
+  refine ⟨⟨fun h => absurd h (by decide), fun _ => by decide, ackEnv_of_eval _ _ _ (fun h => absurd h (by decide +kernel))
+    (by decide +kernel)⟩, ?_, ?_, trivial⟩
+  · intro e rest he
+    have hq : ((Call.run (exCalls.getD 0 default) ((exState []).withFaults (exCalls.getD 0 default).faults)).2.withFaults
+        (some [.packetLost, .delivered])).rad.txFifo = [⟨.payload, [1, 2, 3] ++ List.replicate 29 0, some 0⟩] := by
+      decide +kernel
+    have he' := hq.symm.trans he
+    injection he' with he1 _
+    subst he1
+    exact ackEnv_of_eval _ _ _ (fun h => absurd h (by decide +kernel)) (by decide +kernel)
+  · intro e rest he
+    have hq : (((Call.run (exCalls.getD 1 default) ((Call.run (exCalls.getD 0 default) ((exState []).withFaults
+        (exCalls.getD 0 default).faults)).2.withFaults (exCalls.getD 1 default).faults)).2.withFaults none).rad.txFifo = []) := by
+      decide +kernel
+    have he' := hq.symm.trans he
+    cases he'
+
+/-- **The same with hypotheses on the START STATE only.**  `CallsEnv R s`: no radio other than the
+    transmitter holds an empty ACK payload (queued or last sent — kept by every reception, true after
+    power-up and under `load_ack()`, which rejects empty buffers), the EN_DPL shadow agrees with the
+    register if the radio takes ACK payloads, the static payload length is ≥ 1 if the driver is in
+    static mode.  `Call.legal`: a `send` payload has 1..32 bytes if the driver is in dynamic mode.
+    These imply `callsOk` along the whole run (`callsOk_closed`), hence all of `C02_history_calls`,
+    for every list of calls and every choice of fault patterns. -/
+theorem C02_history_calls_closed (R : Radio) (hp : R.Ptx) (calls : List Call) (s : DrvState) (h : Hist R s)
+    (henv : CallsEnv R s) (hlegal : ∀ c ∈ calls, c.legal s.d) :
+    (runCalls calls s).1 = (expectedCalls calls s).map .ok ∧
+    (runCalls calls s).1.length = calls.length ∧
+    Hist R (runCalls calls s).2 ∧
+    (∀ pre F buf m a n so post, calls = pre ++ Call.send F buf m a n so :: post →
+      SendPre ((runCalls pre s).2.withFaults F) buf so) :=
+  C02_history_calls R hp calls s h (callsOk_closed R hp calls s h henv hlegal)
+
+example : CallsEnv { config := 0x0E } (exState []) ∧ ∀ c ∈ exCalls, c.legal (exState []).d :=
+  ⟨⟨by
+      intro q hq hqs
+      have : q = 1 := by
+        have : q < 2 := hq
+        have : q ≠ 0 := hqs
+        omega
+      subst this
+      exact ⟨(fun e he => by cases he), (fun d hd => by cases hd)⟩,
+    fun hc => absurd hc (by decide), fun _ => by decide⟩,
+   fun c hc => by
+     simp only [exCalls, List.mem_cons, List.not_mem_nil, or_false] at hc
+     rcases hc with rfl | rfl | rfl
+     · exact fun hd => absurd hd (by decide)
+     · trivial
+     · trivial⟩
+
+/-- **Negative `force_retry`, I — `send()` as modelled.**  Python: `while force_retry and not result:
+    result = self.resend(send_only); force_retry -= 1` — a negative counter never reaches 0, the loop
+    ends only when a `resend()` succeeds.  The model gives that loop `|force_retry| + 1` units of
+    fuel and reports `.error .diverge` ("still looping") when they are used up.  For every fault
+    pattern, world, ARC, mode: `send(buf, force_retry = -(k+1))` returns exactly what
+    `force_retry = k + 1` returns when that is a success, and where `force_retry = k + 1` returns
+    `False` it is still looping after `1 + (k + 1)` failed cycles: the result is never `False`.
+    (What happens after the fuel: `C02_negative_retry_loop` — for EVERY fuel.) -/
+theorem C02_negative_force_retry (s : DrvState) (buf : Bytes) (m askNoAck : Bool) (k : Nat) (sendOnly : Bool)
+    (h : SendPre s buf sendOnly) (henv : AckEnv s.rad (s.sendPacket askNoAck buf) s) :
+    (exec (send buf m askNoAck (-((k + 1 : Nat) : Int)) sendOnly) s).1 =
+      (if sendSucceedsB (s.sendAwaits askNoAck buf) (s.sendAcked askNoAck buf) s.w.faults (World.arcOf s.rad) (k + 1)
+       then .ok (okResult sendOnly (s.sendAckPayload askNoAck buf), buf) else .error .diverge) ∧
+    (exec (send buf m askNoAck (-((k + 1 : Nat) : Int)) sendOnly) s).1 ≠ .ok (.bool false, buf) := by
+  have h1 := send_neg s buf m askNoAck k sendOnly h henv
+  refine ⟨h1, ?_⟩
+  rw [h1]
+  split
+  · intro hc
+    injection hc with hc
+    have hc' := congrArg Prod.fst hc
+    simp only at hc'
+    generalize s.sendAckPayload askNoAck buf = t at hc'
+    unfold okResult at hc'
+    cases sendOnly <;> cases t <;> simp at hc'
+  · intro hc; cases hc
+
+example : (match (exec (send [1, 2, 3] false false (-2) false) (exState (List.replicate 12 .packetLost))).1 with
+      | .error .diverge => true | _ => false) = true ∧
+    (match (exec (send [1, 2, 3] false false (-2) false) (exState (List.replicate 11 .packetLost))).1 with
+      | .ok (.bool true, [1, 2, 3]) => true | _ => false) = true := by decide +kernel
+
+/-- **Negative `force_retry`, II — the loop for EVERY fuel: non-termination.**  From a pending failed
+    transmission (`FailedSt`: what the failed first cycle of `send()` leaves), with a negative
+    counter `n`, for every amount `F` of fuel: the loop returns — the success value — iff one of the
+    first `F − 1` further cycles succeeds under the fault pattern, and otherwise is still looping
+    (`.error .diverge`); it never returns `False`.  Hence, when an acknowledgement is awaited and
+    nobody acknowledges audibly (peer absent, not listening, incompatible, or its RX FIFO full and
+    never read — no fault pattern helps), it is still looping for EVERY fuel: `send()` with a
+    negative `force_retry` does not terminate.  (The real code: an infinite loop of `resend()`s.) -/
+theorem C02_negative_retry_loop (R : Radio) (e : TxEntry) (k : Packet) (sendOnly : Bool) (hp : R.Ptx)
+    (n : Int) (hn : n < 0) (s : DrvState) (h : FailedSt R e k s) (hfresh : s.d.status = s.rad.status)
+    (henv : AckEnv R k s) :
+    (∀ F, (exec (forceRetryLoop sendOnly F n (.bool false)) s).1 =
+      if retryOk (R.awaitsAck e) (ackedR R s.w s.d.rid k) (World.arcOf R + 1) (F - 1) s.w.faults
+      then .ok (okResult sendOnly (ackTaken (R.awaitsAck e) (s.w.deliver s.d.rid k).2 R.ackPayRx true))
+      else .error .diverge) ∧
+    (R.awaitsAck e = true → ackedR R s.w s.d.rid k = false →
+      ∀ F, (exec (forceRetryLoop sendOnly F n (.bool false)) s).1 = .error .diverge) := by
+  have key : ∀ F, (exec (forceRetryLoop sendOnly F n (.bool false)) s).1 =
+      if retryOk (R.awaitsAck e) (ackedR R s.w s.d.rid k) (World.arcOf R + 1) (F - 1) s.w.faults
+      then .ok (okResult sendOnly (ackTaken (R.awaitsAck e) (s.w.deliver s.d.rid k).2 R.ackPayRx true))
+      else .error .diverge := by
+    intro F
+    obtain ⟨g1, g2⟩ := retry_loop_neg R e k sendOnly hp F n hn s h hfresh henv
+    cases hro : retryOk (R.awaitsAck e) (ackedR R s.w s.d.rid k) (World.arcOf R + 1) (F - 1) s.w.faults with
+    | true =>
+      obtain ⟨s', l1, _⟩ := g1 hro
+      rw [l1]; rfl
+    | false => rw [g2 hro]; rfl
+  refine ⟨key, fun haw hA F => ?_⟩
+  rw [key F, haw, hA, retryOk_unacked]
+  rfl
+
+/-- the state of the examples after a failed `send()` to nobody: radio 0 alone in the world -/
+def exLonely : DrvState := { d := { dynPl := 0 }, w := { radios := [{ config := 0x0E }], busyUntil := [0] } }
+def exFailed : DrvState := (exec (send [1, 2, 3] false false 0 false) exLonely).2
+
+example : FailedSt { config := 0x0E } ⟨.payload, [1, 2, 3] ++ List.replicate 29 0, some 0⟩
+      (exFailed.rad.packetFor ⟨.payload, [1, 2, 3] ++ List.replicate 29 0, some 0⟩) exFailed ∧
+    exFailed.d.status = exFailed.rad.status ∧
+    Radio.awaitsAck { config := 0x0E } ⟨.payload, [1, 2, 3] ++ List.replicate 29 0, some 0⟩ = true ∧
+    ackedR { config := 0x0E } exFailed.w exFailed.d.rid
+      (exFailed.rad.packetFor ⟨.payload, [1, 2, 3] ++ List.replicate 29 0, some 0⟩) = false ∧
+    AckEnv { config := 0x0E } (exFailed.rad.packetFor ⟨.payload, [1, 2, 3] ++ List.replicate 29 0, some 0⟩) exFailed :=
+  ⟨⟨by decide +kernel, by rfl, by decide +kernel, by decide +kernel, by decide +kernel, rfl, by decide +kernel,
+     ⟨0, rfl⟩, by decide +kernel⟩,
+   by decide +kernel, by decide +kernel, by decide +kernel,
+   ackEnv_of_eval _ _ _ (fun h => absurd h (by decide +kernel)) (by decide +kernel)⟩
+
 /-- **`resend()` on a pending failed transmission** (the state `send()` leaves after a failure, by
     `C02_no_leak` / `send_final`): exactly one more cycle for *the same packet* — same payload, same
     PID, nothing else on the air — with the result the ground truth of the fault pattern dictates:
@@ -322,5 +505,22 @@ example : listOk false 0 false (exState []) [(false, [1, 2, 3])] :=
          (fun d hd => by cases hd)⟩
      · exact ⟨(fun e he => by cases he), Nat.zero_le _, Nat.zero_le _, (fun e he => by cases he), Nat.zero_le _,
          (fun d hd => by cases hd)⟩) (fun hc => absurd hc (by decide)), trivial⟩
+
+/-- **`send([b₁, b₂, …])`, the whole call** (the corollary the review asked for): `C02_send_list`
+    composed with the `ce = False` prefix — the call itself, from any state of a send/resend history,
+    returns exactly `expectedList` judged from the state after CE went low (same radio registers,
+    FIFOs and flags; only the CE pin differs), and leaves the history invariant in place.  `listOk` is
+    the per-payload hypothesis of `C02_send_list`, taken at that state. -/
+theorem C02_send_list_call (R : Radio) (hp : R.Ptx) (bufs : List (Bool × Bytes)) (askNoAck : Bool) (n : Nat) (sendOnly : Bool)
+    (s : DrvState) (h : Hist R s) (hok : listOk askNoAck n sendOnly (s.ceQ false) bufs) :
+    (exec (sendList bufs askNoAck (n : Int) sendOnly) s).1 = .ok (expectedList askNoAck n sendOnly (s.ceQ false) bufs) ∧
+    (expectedList askNoAck n sendOnly (s.ceQ false) bufs).length = bufs.length ∧
+    Hist R (exec (sendList bufs askNoAck (n : Int) sendOnly) s).2 := by
+  obtain ⟨h1, h2⟩ := sendList_spec R hp askNoAck n sendOnly bufs s h hok
+  exact ⟨h1, (C02_send_list R hp bufs askNoAck n sendOnly _ (hist_ceLow R s h) hok).2.2.1, h2⟩
+
+example : listOk false 0 false ((exState []).ceQ false) [(false, [1, 2, 3])] :=
+  ⟨fun h => absurd h (by decide), fun _ => by decide,
+   ackEnv_of_eval _ _ _ (fun h => absurd h (by decide +kernel)) (by decide +kernel), trivial⟩
 
 end Nrf.Props.C02
